@@ -17,8 +17,8 @@
    placement of any number of faults and every cancellation point.
    The protocol part of C02 (no deadlock, termination, syncutil.Go / LimitedRegion) is
    Properties/C02_protocol.v. *)
-From Oras Require Import Base.Prelude Generated.GC02 Model.CopySpec Model.CopyTop Model.CopyFault
-  Proofs.CopySpec Proofs.CopyFault Proofs.CopyFnFacts.
+From Oras Require Import Base.Prelude Generated.GC02 Model.CopySpec Model.CopyTop Model.CopyOpt Model.CopyFault
+  Model.CopyFaultOpt Proofs.CopySpec Proofs.CopyFault Proofs.CopyFnFacts Proofs.CopyFaultOpt.
 Local Open Scope nat_scope.
 
 (* The tie of the hand-modelled error handling to the source (layer T -> P): the syntactic facts
@@ -164,6 +164,52 @@ Theorem C02_conservative_over_CopySpec :
     end.
 Proof. exact faccepts_conservative. Qed.
 Print Assumptions C02_conservative_over_CopySpec.
+
+(* Nil callbacks.  A trace recorded with any subset [cs] of the callbacks set (a nil callback leaves no
+   event) is accepted by [faccepts_opt] exactly through its ELABORATION [full]: a run of the system above
+   in which the invocations of the nil callbacks are inserted; erasing them gives the recorded trace back
+   and no fault is added or lost.  Hence the statements of C02 hold for such runs as well. *)
+Theorem C02_opt_elaborates :
+  forall (cs : cbset) (g : graph) (c : cfg) (ext : bool) (d0 : list node) (tr : list fevent) (fs : fstate) (full : list fevent),
+    faccepts_opt cs g c ext d0 tr = Some (fs, full) ->
+    faccepts g c ext d0 full = Some fs /\ ferase cs full = tr /\ existsb is_fault full = existsb is_fault tr.
+Proof. exact fopt_elaborates. Qed.
+Print Assumptions C02_opt_elaborates.
+
+Theorem C02_opt_closed_always :
+  forall (cs : cbset) (g : graph) (c : cfg) (ext : bool) (d0 : list node) (tr : list fevent) (fs : fstate) (full : list fevent),
+    ext_ok g c ext d0 -> closed_nodes g d0 -> faccepts_opt cs g c ext d0 tr = Some (fs, full) ->
+    closed_nodes g (dst (fb fs)).
+Proof. exact fopt_closed_always. Qed.
+Print Assumptions C02_opt_closed_always.
+
+Theorem C02_opt_fault_surfaces :
+  forall (cs : cbset) (g : graph) (c : cfg) (ext : bool) (d0 : list node) (tr : list fevent) (fs : fstate) (full : list fevent),
+    ext_ok g c ext d0 -> faccepts_opt cs g c ext d0 tr = Some (fs, full) -> existsb is_fault tr = true ->
+    returned (fb fs) <> Some true.
+Proof. exact fopt_fault_surfaces. Qed.
+Print Assumptions C02_opt_fault_surfaces.
+
+Theorem C02_opt_nofault_no_error_return :
+  forall (cs : cbset) (g : graph) (c : cfg) (ext : bool) (d0 : list node) (tr : list fevent) (fs : fstate) (full : list fevent),
+    faccepts_opt cs g c ext d0 tr = Some (fs, full) -> existsb is_fault tr = false ->
+    tainted g fs = false /\ returned (fb fs) <> Some false.
+Proof. exact fopt_nofault_no_error. Qed.
+Print Assumptions C02_opt_nofault_no_error_return.
+
+Theorem C02_opt_success_complete :
+  forall (cs : cbset) (g : graph) (c : cfg) (ext : bool) (d0 : list node) (tr : list fevent) (fs : fstate) (full : list fevent),
+    ext_ok g c ext d0 -> closed_nodes g d0 -> mt_consistent g ->
+    faccepts_opt cs g c ext d0 tr = Some (fs, full) -> returned (fb fs) = Some true ->
+    forall r n, is_call_root g c ext r -> reach g r n -> has g (dst (fb fs)) n = true.
+Proof. exact fopt_success_complete. Qed.
+Print Assumptions C02_opt_success_complete.
+
+Example C02_example_nil_callbacks :
+  exists fs full, faccepts_opt cs_pre_only g_sh c_sh false [] tr_sh_opt = Some (fs, full) /\
+    returned (fb fs) = Some false /\ ph (fb fs) 1 = Done /\ In (Ev (Cb CPost 1)) full /\
+    length full = S (length tr_sh_opt).
+Proof. exact example_opt_run. Qed.
 
 (* The hypotheses are satisfiable and the runs are not vacuous: a shared-successor DAG
    (R -> A, B; A -> C, D; B -> C) whose push of C fails AFTER the content was stored while D
